@@ -148,7 +148,7 @@ func runCheck(prop, repo, verif, tier string) int {
 	}
 	smtDir := filepath.Join(verif, "tmp", "smt-"+prop)
 	os.RemoveAll(smtDir)
-	reps := verifyKeys(w, keys, lemmas, smtDir, timeout, 16, false)
+	reps := verifyKeys(w, keys, lemmas, smtDir, timeout, 16, false, prop)
 	known := loadKnownFindings(filepath.Join(verif, "KNOWN_FINDINGS.txt"))
 	replayDir := filepath.Join(verif, "replays", prop)
 	os.RemoveAll(replayDir)
@@ -164,6 +164,7 @@ func runCheck(prop, repo, verif, tier string) int {
 	exitCode := 0
 	trusted := map[string]bool{"A-SOLVER": true, "A-GOVC": true, "A-GO": true}
 	knownOblSeen := map[string]bool{}
+	var deadNotes []string
 	for _, r := range reps {
 		fc := w.CS.Funcs[r.Key]
 		if fc != nil && fc.Trusted {
@@ -178,7 +179,11 @@ func runCheck(prop, repo, verif, tier string) int {
 			violations = append(violations, fmt.Sprintf("VIOLATION property=%s replay=%s no-failing-input-found", prop, p))
 			continue
 		}
-		funcsUnder = append(funcsUnder, r.Key)
+		if r.Key == "behavioural-subtyping" {
+			funcsUnder = append(funcsUnder, r.Notes...)
+		} else {
+			funcsUnder = append(funcsUnder, r.Key)
+		}
 		if r.Ex != nil {
 			for k := range r.Ex.assumedCalls {
 				assumedContracts = append(assumedContracts, k)
@@ -209,8 +214,14 @@ func runCheck(prop, repo, verif, tier string) int {
 					if strings.HasSuffix(x.O.Name, "cover.pre") {
 						fmt.Println("ENGINE-ERROR vacuous precondition:", x.O.Name)
 						exitCode = 2
+					} else if expectedDead(fc, x.O.Name) {
+						deadNotes = append(deadNotes, x.O.Name)
 					} else {
-						fmt.Println("NOTE unreachable return site (dead code):", x.O.Name, x.O.Src)
+						// a program point that was reachable is now dead: the obligations behind it hold vacuously
+						rf := &ReplayFile{Property: prop, Obligation: x.O.Name, Function: x.O.Func, Source: x.O.Src, Solver: x.R.Solver, Status: x.R.Status, Verdict: "no-model", Detail: "vacuity guard: this program point is unreachable under the contract's precondition (not declared dead in the contract)", SMTFile: x.R.File}
+						p := writeReplayFile(replayDir, rf)
+						violations = append(violations, fmt.Sprintf("VIOLATION property=%s replay=%s no-failing-input-found", prop, p))
+						fmt.Printf("  vacuous path %s: %s\n", x.O.Name, x.O.Src)
 					}
 				}
 				continue
@@ -291,7 +302,7 @@ func runCheck(prop, repo, verif, tier string) int {
 		"assumed_contracts":        dedup(assumedContracts),
 		"unverified_functions":     unverified,
 		"known_finding_obligations": sortedBoolKeys(knownOblSeen),
-		"vacuity":                  map[string]interface{}{"covers": covers, "sat": coversSat},
+		"vacuity":                  map[string]interface{}{"covers": covers, "sat": coversSat, "declared_dead": deadNotes},
 		"modelling_notes":          dedup(notes),
 		"translation_drops":        translationDrops,
 		"explanation":              "every obligation is generated on this run from the function bodies in the working tree plus the //@ contracts in *_verif.go; a caller sees only its callee's contract",
@@ -319,6 +330,18 @@ var translationDrops = []string{
 }
 
 func extraEvidence(w *World, prop, tier string, cov map[string]interface{}) {}
+
+func expectedDead(fc *FuncContract, name string) bool {
+	if fc == nil {
+		return false
+	}
+	for _, d := range fc.Dead {
+		if strings.HasSuffix(name, "#"+d) || strings.HasSuffix(name, d) {
+			return true
+		}
+	}
+	return false
+}
 
 func round3(f float64) float64 { return float64(int(f*1000+0.5)) / 1000 }
 
